@@ -53,6 +53,11 @@ where
         }
     }
 
+    #[cfg(chalk_verif)]
+    pub(crate) fn verif_len(&self) -> usize {
+        self.nodes.len()
+    }
+
     pub(crate) fn lookup(&self, goal: &K) -> Option<DepthFirstNumber> {
         self.indices.get(goal).cloned()
     }
